@@ -80,6 +80,7 @@ func init() {
 			"(registry) every concrete Transaction / ClassDefinition / TrieNode type is registered with the encoder exactly once; (sections) index slices are paired with their own section of the blob and only the two section helpers slice it; (codec-agreement) per bucket, the value encoder of every Put and the decoder of every Get in core's accessors belong to one codec family. Not decided: round-trip identity of values, offsets inside the blob, nil-vs-empty."
 		c07DecoderLimits(c)
 		c07NoPooledEscape(c)
+		c07NoOmitEmpty(c)
 		core := p.pkg("core").Types.Scope()
 		disc := p.lookupType("core", "discardedCBOR")
 		// ---- projection ----
@@ -801,5 +802,56 @@ func c07NoPooledEscape(c *Ctx) {
 	}
 	if n == 0 {
 		c.ok("no-pooled-escape", "core, core/indexed, encoder, db", "", "no function of the storage codecs returns a buffer to a sync.Pool")
+	}
+}
+
+// c07NoOmitEmpty: (no-omitempty) a stored struct field of slice, map or pointer type does not carry the CBOR `omitempty`
+// option: with it an empty non-nil value is not written and reads back as nil — an event with `"data": []` comes back with
+// `Data == nil` through every accessor (seeded change C07-M copies the tag of ProofFacts onto Event.Keys/Data and the message
+// payloads). The fields that carry the option today are a reviewed, frozen set.
+func c07NoOmitEmpty(c *Ctx) {
+	p := c.P
+	reviewed := map[string]string{
+		"core.BlockTransactionsIndexes.Transactions": "index slices of the block blob: written from make(…, 0, n)+append, empty only for an empty block, and consumers use len()",
+		"core.BlockTransactionsIndexes.Receipts":     "see Transactions",
+		"core.InvokeTransaction.ProofFacts":          "added late to an existing layout; the test-suite already treats nil and empty as equal for this field (observation O13)",
+	}
+	pk := p.pkg("core")
+	if pk == nil {
+		c.und("no-omitempty", "core", "", "package not found")
+		return
+	}
+	n := 0
+	scope := pk.Types.Scope()
+	for _, name := range scope.Names() {
+		tn, ok := scope.Lookup(name).(*types.TypeName)
+		if !ok {
+			continue
+		}
+		st, ok := tn.Type().Underlying().(*types.Struct)
+		if !ok || p.InFixture(tn.Pos()) || strings.HasSuffix(p.Pos(tn.Pos()), "_test.go") {
+			continue
+		}
+		for i := 0; i < st.NumFields(); i++ {
+			tag := reflect.StructTag(st.Tag(i)).Get("cbor")
+			if !strings.Contains(tag, "omitempty") {
+				continue
+			}
+			switch st.Field(i).Type().Underlying().(type) {
+			case *types.Slice, *types.Map, *types.Pointer:
+			default:
+				continue
+			}
+			n++
+			key := "core." + name + "." + st.Field(i).Name()
+			if why, ok := reviewed[key]; ok {
+				c.ok("no-omitempty", key, p.Pos(st.Field(i).Pos()), "reviewed: "+why)
+				continue
+			}
+			c.viol("no-omitempty", key, p.Pos(st.Field(i).Pos()), "stored field "+key+" carries the CBOR omitempty option: an empty (non-nil) value is not written and is read back as nil — what accessors return differs from what was stored")
+		}
+	}
+	if n == 0 {
+		c.ok("no-omitempty", "core", "", "no stored slice/map/pointer field carries omitempty")
 	}
 }
